@@ -54,7 +54,7 @@ type gatedReader struct {
 }
 
 func (r *gatedReader) AssignSplits(splits []*workerpb.SourceSplit) error { return nil }
-func (r *gatedReader) Checkpoint() [][]byte                               { return nil }
+func (r *gatedReader) Checkpoint() [][]byte                              { return nil }
 func (r *gatedReader) ReadEvents() ([][]byte, error) {
 	select {
 	case c := <-r.chunks:
@@ -104,9 +104,9 @@ func (h *gatedHandler) KeyEventBatch(ctx context.Context, events [][]byte) ([][]
 // the operator: records what it is given when the call enters, then holds the call
 type gatedOperator struct {
 	proto.UnimplementedOperator
-	rec      srRecorder
-	tokens   chan struct{}
-	free     chan struct{}
+	rec    srRecorder
+	tokens chan struct{}
+	free   chan struct{}
 }
 
 func (o *gatedOperator) ID() string   { return "op" }
